@@ -3,4 +3,5 @@ let all : (string * (Model.event list -> bool)) list = [
   ("accepts", Model.accepts);
   ("C12", Model.chk_C12);
   ("C12_nowait", Model.chk_C12_nowait);
+  ("C03", Model.chk_C03);
 ]
